@@ -54,6 +54,18 @@ impl XmlConverter {
         }
     }
 
+    fn is_element(v: &Val) -> bool {
+        let mut named = false;
+        if let Val::Tuple(fs) = v {
+            for (field, _) in fs.iter() {
+                if field.as_ref() == "name" {
+                    named = true;
+                }
+            }
+        }
+        named
+    }
+
     fn write_node<W: std::io::Write>(&self, v: &Val, w: &mut EventWriter<W>) -> ConvertResult {
         // First we determine if this is a tag or text node
         if let Val::Tuple(fs) = v {
@@ -196,6 +208,13 @@ impl XmlConverter {
             }
             match root {
                 Some(n) => {
+                    if !Self::is_element(n.as_ref()) {
+                        return Err(BuildError::new(
+                            "XML doc roots must be an element with a name field",
+                            ErrorType::TypeFail,
+                        )
+                        .to_boxed());
+                    }
                     let mut writer = EmitterConfig::new()
                         .perform_indent(true)
                         .normalize_empty_elements(false)
